@@ -86,20 +86,25 @@ impl<'a, P> State<'a, P> {
     where
         T: CustomState<'a> + TidAble<'a>,
     {
-        #[derive(better_any::Tid)]
-        struct Marker<T>(PhantomData<fn() -> T>);
-        impl<'a, T: TidAble<'a>> CustomState<'a> for Marker<T> {}
+        // Remember the scope `T` was taken from by its position counted from the root scope,
+        // so `T` is put back into exactly that scope, whether or not `f` fails, and also when
+        // `f` itself holds another `T` of a shadowed scope.
+        fn scopes_below(registry: &StateRegistry) -> usize {
+            std::iter::successors(registry.parent(), |registry| registry.parent()).count()
+        }
 
         let registry_with_t = self.find_mut::<T>()?;
-        registry_with_t.insert(Marker::<T>(PhantomData));
+        let position = scopes_below(registry_with_t);
         let mut t = registry_with_t.remove::<T>()?;
-        f(&mut t, self)?;
+        let result = f(&mut t, self);
 
-        let state_with_t = self.find_mut::<Marker<T>>()?;
-        state_with_t.insert(t);
-        state_with_t.remove::<Marker<T>>()?;
+        let mut registry_with_t = &mut self.registry;
+        for _ in position..scopes_below(registry_with_t) {
+            registry_with_t = registry_with_t.parent_mut().unwrap();
+        }
+        registry_with_t.insert(t);
 
-        Ok(())
+        result
     }
 }
 
